@@ -7,7 +7,9 @@
         for NPROG generated programs (the model must say OK), for at most KCAP model-rejected
         mutants per (operator, context) of each program, for the text-level mutants (unknown
         exception name) and for NMATCH enum/match template groups.
-     run show SEED I      prints program I and its candidate mutants (debugging)            *)
+     run mcheck FILE      one else-less/else match per line (`n k1 k2 .. [else]`): the model's verdict
+                          (Tcmodel.match_check) for the text-level match families of checks/c06.py
+     run show SEED I      prints program I (debugging)                                        *)
 open Tcmodel
 open Conv
 
@@ -145,8 +147,20 @@ let () =
     for i = 0 to nprog - 1 do do_program oc seed kcap i done;
     for i = 0 to nmatch - 1 do do_match oc seed i done;
     close_out oc
+  | [ _; "mcheck"; file ] ->
+    (* one match per line: `<number of enumerators> <guarded enumerator>... [else]` -> model verdict *)
+    let ic = open_in file in
+    (try while true do
+         let l = input_line ic in
+         match List.filter (fun x -> x <> "") (String.split_on_char ' ' l) with
+         | n :: arms ->
+           let arms = List.map (fun a -> if a = "else" then GElse else GItem (nat_of_int (int_of_string a))) arms in
+           print_endline (model_str (match_check (nat_of_int (int_of_string n)) arms))
+         | [] -> print_endline "-"
+       done with End_of_file -> ());
+    close_in ic
   | [ _; "show"; seed; i ] ->
     let prog = Tgen.gen_program (Rng.derive (int_of_string seed) (int_of_string i)) in
     print_string (Pp.print_program prog);
     Printf.printf "// model: %s\n" (model_str (tc_program prog))
-  | _ -> prerr_endline "usage: run gen SEED NPROG KCAP NMATCH OUT | run show SEED I"; exit 2
+  | _ -> prerr_endline "usage: run gen SEED NPROG KCAP NMATCH OUT | run mcheck FILE | run show SEED I"; exit 2
